@@ -430,6 +430,18 @@ fn synth(rng: &mut StdRng, idx: usize, blocks: u64, now: u64) -> Source {
 
 // ------------------------------------------------------------------ family: large
 
+/// Key names of the large sources: unpadded numbers (so that many keys are proper PREFIXES of the keys that follow
+/// them in byte order: key25 < key250 < key2500), keys ending in 0xff and in 0x00, and fixed-width ones - wherever a
+/// batch of the copy ends, the next batch has to resume at the true successor.
+fn large_key(i: usize) -> Vec<u8> {
+    match i % 5 {
+        0 | 1 => format!("key{i}").into_bytes(),
+        2 => { let mut k = format!("key{}", i / 10).into_bytes(); k.push(0xff); k.extend_from_slice(format!("{i}").as_bytes()); k }
+        3 => { let mut k = format!("key{i}").into_bytes(); k.push(0); k }
+        _ => format!("key{i:06}").into_bytes(),
+    }
+}
+
 fn large(rng: &mut StdRng, n: usize, fmt: u32, with_marker: bool, now: u64) -> Source {
     let dups = n / 7 + 1;
     let blocks = 16 + n as u64 + dups as u64 + 8;
@@ -437,7 +449,7 @@ fn large(rng: &mut StdRng, n: usize, fmt: u32, with_marker: bool, now: u64) -> S
     let mut cur = 16u64;
     let put = |img: &mut Vec<u8>, s: u64, b: &[u8]| img[s as usize * BLK..s as usize * BLK + b.len()].copy_from_slice(b);
     for i in 0..n {
-        let key = format!("key{i:06}").into_bytes();
+        let key = large_key(i);
         let vlen = 40 + (i * 37) % 2900;
         let mut val = vec![b'v'; vlen];
         val[..8].copy_from_slice(&(i as u64).to_le_bytes());
@@ -452,7 +464,7 @@ fn large(rng: &mut StdRng, n: usize, fmt: u32, with_marker: bool, now: u64) -> S
         if i >= n {
             break;
         }
-        let key = format!("key{i:06}").into_bytes();
+        let key = large_key(i);
         let newer = d % 2 == 0;
         let val = format!("duplicate-{d}-{}", if newer { "newer" } else { "older" }).into_bytes();
         let ts = if newer { 900_000 + d as u64 } else { 5 };
